@@ -12,6 +12,8 @@ def run(facts, tier):
         ("coin dataflow", K.coin_sources, 15, "surviving parity flows from random_bit() only; one draw per halving, independent of outcomes; stride 2 over an even run"),
         ("stride offsets", K.stride_offsets, 1, "a stride-s sub-sampling loop starts at an offset drawn uniformly from [0, s) with the library engine"),
         ("req region", K.req_region, 2, "REQ compaction range touches the end of the live region that compact() moves (low==0 in HRA, high==num_items_ in LRA)"),
+        ("req exact band", K.req_exact_band, 1, "REQ rank bounds collapse to the estimate only inside the never-compacted part of level 0 (n <= k * INIT_NUM_SECTIONS)"),
+        ("kll sorted run", K.sorted_run_is_halved_run, 2, "the range KLL compaction sorts before halving level 0 is exactly the run it halves (halving an unsorted run is biased)"),
         ("req merge runs", K.req_merge_ranges, 2, "a REQ compactor merge leaves the level sorted in both buffer layouts (std::inplace_merge gets exactly the old run and the appended run): ranks are computed over sorted levels"),
         ("view invalidation", quantile_rules.cache_invalidation, 10, "every operation that changes the retained items drops the cached sorted view: estimates are computed from the current contents, not from a view cached before a merge"),
         ("unsigned clamp", K.unsigned_field_minus_param, 1, "every caller of a function that subtracts a parameter from an unsigned field passes min(x, field): the REQ compaction schedule is clamped to the number of sections"),
